@@ -9,8 +9,14 @@ mkdir -p lean/Agd/Gen
 ./.bin/agdextract -repo "${VERIF_REPO:-/repo}" -out lean/Agd/Gen -spec extract/facts
 (cd lean && lake build Agd agdmodel)
 R="${VERIF_REPO:-/repo}"; cat "$R"/go.sum "$R"/internal/dnsserver/go.sum | sort -u > harness/go.sum
+MODFLAG=""
+if [ "$(realpath "$R")" != "/repo" ]; then
+  sed "s#=> /repo#=> $(realpath "$R")#" harness/go.mod > harness/go.alt.mod
+  cp harness/go.sum harness/go.alt.sum
+  MODFLAG="-modfile=$(pwd)/harness/go.alt.mod"
+fi
 for d in harness/cmd/*/; do
   n=$(basename "$d")
-  (cd harness && go build -tags verif -o ../.bin/"$n" ./cmd/"$n")
+  (cd harness && go build $MODFLAG -tags verif -o ../.bin/"$n" ./cmd/"$n")
 done
 echo setup-ok
